@@ -221,6 +221,24 @@ theorem C16_mutators_inventory :
     (∀ m ∈ Gen.concRecvWritesShared.map (·.1), m ∉ Gen.concRoots) := by
   decide
 
+/-- **Alias-then-write inventory** (extract/gen_conc.go, (d)): in the functions reachable from the
+listed operations, the only writes through a local variable bound to memory rooted at a
+font-graph receiver / parameter / package-level variable (`x := f.Field; x[i] = …`,
+`append(x[:0], …)`, `for _, g := range f.Glyphs { g.Name = … }`), or directly through such a
+parameter, are the four below.  All four go through `res := *old`, a BY-VALUE copy of the
+`gtab.Info` struct in `SubsetGsub`/`SubsetGpos`, whose `LookupList` field is replaced by fresh
+memory (`nil` / `make`) before anything is stored in it — the old lookup list is never written
+(observed by the hash stream on Subset).  A change such as `glyphNames = f.Names` in
+`MakeGlyphNames`, or writing through `lig.In[:0]` of the original ligature, adds entries and
+breaks this theorem. -/
+theorem C16_alias_writes_inventory :
+    Gen.concAliasWritesReachable =
+      [("sfnt.subsetter.SubsetGpos", "assign res.LookupList <- res := *old"),
+       ("sfnt.subsetter.SubsetGpos", "assign res.LookupList[i] <- res := *old"),
+       ("sfnt.subsetter.SubsetGsub", "append res.LookupList <- res := *old"),
+       ("sfnt.subsetter.SubsetGsub", "assign res.LookupList <- res := *old")] := by
+  decide
+
 /-! ### Non-vacuity -/
 
 /-- three goroutines, two digests each over a 3-location shared part: confined -/
@@ -252,7 +270,7 @@ example : resultAlone demoStore (digestOp 3 4) = [10, 11, 12] := by decide
 example : (List.range 6).map (fun k => (exec roundRobin ⟨demoStore, demoProgs.map Thread.ofOps⟩).σ (3 + k)) =
     [33, 33, 33, 33, 33, 33] := by decide
 
-example : listedOps.length = 22 := by decide
+example : listedOps.length = 23 := by decide
 example : predictPure "write" = "unchanged" := by decide
 
 end SfntV.Props.C16
